@@ -23,7 +23,8 @@ EXC_MAP = {'IndexError': 'EIndex', 'ValueError': 'EValue',
            'TypeError': 'EType', 'ZeroDivisionError': 'EZeroDiv',
            'KeyError': 'EKey', 'ParseMCNPCellError': 'ECell',
            'MissingLatticeOptError': 'EMissingLattice',
-           'AssertionError': 'EAssert'}
+           'AssertionError': 'EAssert',
+           'TransformationError': 'ETransf'}
 
 
 # ---------------------------------------------------------------------------
@@ -149,8 +150,10 @@ def gen_params(rng, tr_ids, star, wild=False):
             return shift + rng.choice([ANG_ID, ANG_Z90])
         return shift + rng.choice([IDENT, ROT_Z90, ROT_X])
     if wild:
-        k = rng.choice([2, 4, 6, 8, 9, 13])
-        full = shift + (ANG_ID if star else IDENT) + ['1']
+        # not 8: five matrix entries go through normalize_matrix5 (C04's
+        # subject; it raises StopIteration on these values)
+        k = rng.choice([2, 4, 6, 7, 9, 10, 13, 14])
+        full = shift + (ANG_ID if star else IDENT) + [rng.choice(['1', '1', '-1']), '1']
         return full[:k]
     return shift
 
@@ -463,13 +466,26 @@ def deck_tokens(deck):
     return toks
 
 
+def card_split(name, toks):
+    '''(dictionary key, entries) of a data card as Card.parts() +
+    get_cell_importances read it: the card name runs up to the first digit of
+    the card (so a leading "." or sign of the first entry, or leading entries
+    without a digit, end up in the name) and the entries are what follows.
+    Written from the observed rule, independently of the regex.'''
+    text = name + ' ' + ' '.join(toks)
+    pos = next((k for k, ch in enumerate(text) if ch in '0123456789'),
+               len(text))
+    return text[:pos].lower(), text[pos:].split()
+
+
 def c_pcase(deck, lattice_args, result):
     '''One `pcase` term.'''
     from t4_geom_convert.main import parse_lattice
     transforms = result[3]
     tables = c_tables(deck_tokens(deck), transforms)
-    imps = clist(cpair(cstr(name.lower()), clist(cstr(t) for t in toks))
-                 for name, toks in deck['imp_cards'])
+    split = [card_split(name, toks) for name, toks in deck['imp_cards']]
+    imps = clist(cpair(cstr(name), clist(cstr(t) for t in toks))
+                 for name, toks in split)
     cards = clist(c_card(c) for c in deck['cells'])
     lats = clist(cpair(cz(k), clist(cpair(cz(a), cz(b)) for a, b in v))
                  for k, v in parse_lattice(list(lattice_args)).items())
